@@ -1,6 +1,7 @@
 import PrysmVerif.Generated.C02
 import PrysmVerif.Lemmas.C02Asp
 import PrysmVerif.Lemmas.C02Param
+import PrysmVerif.Lemmas.C02Pad
 import PrysmVerif.Lemmas.C01Exp
 import PrysmVerif.Lemmas.PyArith
 /-!
@@ -185,6 +186,38 @@ theorem centered_dft_idft (he : IsChar e) (hf : IsFaithful e) (cj : K →+* K) (
   have := focusUnfocus_id (e := fun t => e (-t)) nrm he.reflect (isFaithful_reflect hf) cj (isConj_reflect nrm cj hc)
     m n hm hn (hN m hm) (hN n hn) F j i hj hi
   simpa [focusUnfocus] using this
+
+/-- `focus(f, Q)` is `focus(pad2d(f, Q), 1)` (and likewise `unfocus`): with the flags and the pad offset of the current
+source the padded route equals the unpadded route applied to the padded array, as arrays, for every shape and padded shape -/
+theorem focus_is_focus_of_pad (m n M' N' : Nat) (f : Array (Array K)) :
+    fftRoute2G focusFlagsGen e nrm (m, n) (M', N') (padLo (m : Int) (M' : Int), padLo (n : Int) (N' : Int)) f
+        = fftRoute2G focusFlagsGen e nrm (M', N') (M', N') (0, 0)
+            (pad2 (m, n) (M', N') (padLo (m : Int) (M' : Int), padLo (n : Int) (N' : Int)) f) ∧
+    fftRoute2G unfocusFlagsGen e nrm (m, n) (M', N') (padLo (m : Int) (M' : Int), padLo (n : Int) (N' : Int)) f
+        = fftRoute2G unfocusFlagsGen e nrm (M', N') (M', N') (0, 0)
+            (pad2 (m, n) (M', N') (padLo (m : Int) (M' : Int), padLo (n : Int) (N' : Int)) f) := by
+  rw [gen_route_flags.1, gen_route_flags.2, fftRoute2G_focus_ref, fftRoute2G_focus_ref, fftRoute2G_unfocus_ref,
+    fftRoute2G_unfocus_ref]
+  exact ⟨fftRoute2_pad_first nrm _ _ _ f, fftRoute2_pad_first nrm _ _ _ f⟩
+
+/-- `unfocus(focus(f, Q), 1) = pad2d(f, Q)`: propagating a padded focus back returns the zero-padded field, sample for
+sample, for every input shape and every padded shape `(M', N')` of any parity (so for every `Q ≥ 1`, integer or not) -/
+theorem unfocus_focus_padded (he : IsChar e) (hf : IsFaithful e) (cj : K →+* K) (hc : IsConj cj e nrm) (hN : NrmSq nrm)
+    (m n M' N' : Nat) (hM : 0 < M') (hN' : 0 < N') (f : Array (Array K)) (j i : Nat) (hj : j < M') (hi : i < N') :
+    rd2 (fftRoute2G unfocusFlagsGen e nrm (M', N') (M', N') (0, 0)
+          (fftRoute2G focusFlagsGen e nrm (m, n) (M', N') (padLo (m : Int) (M' : Int), padLo (n : Int) (N' : Int)) f)) j i
+      = rd2 (pad2 (m, n) (M', N') (padLo (m : Int) (M' : Int), padLo (n : Int) (N' : Int)) f) j i := by
+  rw [(focus_is_focus_of_pad nrm m n M' N' f).1]
+  exact centered_idft_dft nrm he hf cj hc hN M' N' hM hN' _ j i hj hi
+
+/-- `focus(unfocus(F, Q), 1) = pad2d(F, Q)` likewise -/
+theorem focus_unfocus_padded (he : IsChar e) (hf : IsFaithful e) (cj : K →+* K) (hc : IsConj cj e nrm) (hN : NrmSq nrm)
+    (m n M' N' : Nat) (hM : 0 < M') (hN' : 0 < N') (F : Array (Array K)) (j i : Nat) (hj : j < M') (hi : i < N') :
+    rd2 (fftRoute2G focusFlagsGen e nrm (M', N') (M', N') (0, 0)
+          (fftRoute2G unfocusFlagsGen e nrm (m, n) (M', N') (padLo (m : Int) (M' : Int), padLo (n : Int) (N' : Int)) F)) j i
+      = rd2 (pad2 (m, n) (M', N') (padLo (m : Int) (M' : Int), padLo (n : Int) (N' : Int)) F) j i := by
+  rw [(focus_is_focus_of_pad nrm m n M' N' F).2]
+  exact centered_dft_idft nrm he hf cj hc hN M' N' hM hN' _ j i hj hi
 
 /-! ## matrix DFT / chirp-Z onto the full band, and back -/
 
@@ -431,5 +464,13 @@ example (f : Nat → Nat → ℂ) (j i : Nat) (hj : j < 6) (hi : i < 4) :
         (mdftEoutScale ((9 : ℕ) : ℝ) ((8 : ℕ) : ℝ) 1 1) (mdftEinScale ((9 : ℕ) : ℝ) ((8 : ℕ) : ℝ) 1 1) (1.5, -2.25) f j i = f j i :=
   band_complete_roundtrip sqrtNrm expKernel_isChar expKernel_isFaithful _ expKernel_isConj sqrtNrm_nrmSq
     6 4 9 8 1.5 2 1.5 (-2.25) (by norm_num) (by norm_num) (by omega) (by omega) (by omega) (by omega) f j i hj hi
+
+/-- the padded round trip instantiated: a `3×4` field focused with `Q = 2` onto `6×8` (and an odd `7×5` target), back at `Q = 1` -/
+example (f : Array (Array ℂ)) (j i : Nat) (hj : j < 6) (hi : i < 8) :
+    rd2 (fftRoute2G unfocusFlagsGen expKernel sqrtNrm (6, 8) (6, 8) (0, 0)
+          (fftRoute2G focusFlagsGen expKernel sqrtNrm (3, 4) (6, 8) (padLo (3 : Int) (6 : Int), padLo (4 : Int) (8 : Int)) f)) j i
+      = rd2 (pad2 (3, 4) (6, 8) (padLo (3 : Int) (6 : Int), padLo (4 : Int) (8 : Int)) f) j i :=
+  unfocus_focus_padded sqrtNrm expKernel_isChar expKernel_isFaithful _ expKernel_isConj sqrtNrm_nrmSq 3 4 6 8
+    (by omega) (by omega) f j i hj hi
 
 end C02
